@@ -9,6 +9,7 @@ P = ['C11', 'C02', 'C12', 'C01']
 
 def build():
     U = Unit('SYNX', props=P)
+    U.default_closures = True     # rule-based D3/D16 (vlib/closures.py) applies to every function of this unit
     U.tag_loops = True
     U.raw(open(__file__.replace('units/synx.py', 'contracts/synx.prelude.rs')).read())
     U.file(PLIB).item('enum', 'TopEntryPoint')
